@@ -29,9 +29,11 @@ def run(rec):
                 def ra(*a, **kw):
                     arr = orig_ra(*a, **kw)
                     state.setdefault('ops', []).append((arr, arr.copy(deep=False), arr.copy(deep=True)))
+                    state.setdefault('fp0', {})[id(arr)] = gen.fingerprint(arr)      # value snapshot: a deep copy shares the LegCharge objects
                     return arr
                 def note(arr):
                     state.setdefault('ops', []).append((arr, arr.copy(deep=False), arr.copy(deep=True)))
+                    state.setdefault('fp0', {})[id(arr)] = gen.fingerprint(arr)
                     return arr
                 orig_note = gen.note_operand
                 gen.random_array, gen.note_operand = ra, note
@@ -45,8 +47,9 @@ def run(rec):
                     if c.name in ('iadd_prefactor_other',) and False:
                         continue
                     f_now, f_deep = gen.fingerprint(arr), gen.fingerprint(deep)
-                    same_vals = np.array_equal(f_now[0], f_deep[0])
-                    same_legs = f_now[2] == f_deep[2] and f_now[3] == f_deep[3] and f_now[4] == f_deep[4]
+                    f_0 = state['fp0'][id(arr)]
+                    same_vals = np.array_equal(f_now[0], f_deep[0]) and np.array_equal(f_now[0], f_0[0])
+                    same_legs = f_now[1:5] == f_0[1:5]            # leg identity, leg content (slices, charges, qconj, flags), labels, qtotal
                     if not (same_vals and same_legs):
                         rec.violation(f'{c.name}:operand-changed',
                                       f'values equal: {same_vals}, legs/labels/qtotal equal: {same_legs}',
